@@ -5,6 +5,7 @@ import (
 	"fmt"
 	"io"
 	"net"
+	"runtime"
 	"sync"
 	"sync/atomic"
 	"time"
@@ -325,6 +326,74 @@ func execScript(s *scriptScn) *scriptObs {
 				for k := 0; k < a.N; k++ {
 					if x := <-res; x.Kind != "ok" {
 						out = x
+					}
+				}
+				return out
+			})
+		case "open":
+			// Open at any moment, also on a Mux that has closed
+			m := muxes[side]
+			r = bounded(func() actRes {
+				c0, err := m.Open(multiplex.ConnID(a.ID))
+				if err != nil {
+					return classify(err)
+				}
+				if c0 == nil {
+					return actRes{Kind: "err", Err: "Open returned nil, nil"}
+				}
+				conns[side][a.ID] = c0
+				return actRes{Kind: "ok"}
+			})
+		case "openrace":
+			// a.N goroutines open the ids a.ID, a.ID+1, … while another one closes the Mux
+			m := muxes[side]
+			r = bounded(func() actRes {
+				start := make(chan struct{})
+				type opened struct {
+					id  uint32
+					cn  net.Conn
+					res actRes
+				}
+				res := make(chan opened, a.N+1)
+				for k := 0; k < a.N; k++ {
+					id := a.ID + uint32(k)
+					go func() {
+						defer func() {
+							if p := recover(); p != nil {
+								res <- opened{id, nil, actRes{Kind: "panic", Err: fmt.Sprint(p)}}
+							}
+						}()
+						<-start
+						c0, err := m.Open(multiplex.ConnID(id))
+						if err != nil {
+							res <- opened{id, nil, classify(err)}
+							return
+						}
+						res <- opened{id, c0, actRes{Kind: "ok"}}
+					}()
+				}
+				go func() {
+					defer func() {
+						if p := recover(); p != nil {
+							res <- opened{0, nil, actRes{Kind: "panic", Err: fmt.Sprint(p)}}
+						}
+					}()
+					<-start
+					if a.Mode == 1 {
+						runtime.Gosched()
+					}
+					m.Close()
+					res <- opened{0, nil, actRes{Kind: "ok"}}
+				}()
+				close(start)
+				out := actRes{Kind: "ok"}
+				for k := 0; k < a.N+1; k++ {
+					x := <-res
+					if x.res.Kind != "ok" {
+						out = x.res
+					}
+					if x.cn != nil {
+						conns[side][x.id] = x.cn
 					}
 				}
 				return out
